@@ -203,7 +203,8 @@ def gen_bytes(rng, d, marks, pos):
     if k == "bits":
         return rbytes(rng, 1)
     if k == "raw":
-        return rbytes(rng, rng.choice([0, 0, 1, 5, 17]))
+        # "the rest": also whole and cut-off records of the sizes hand-written from_unpack_list bodies step through (20, 24)
+        return rbytes(rng, rng.choice([0, 0, 1, 5, 17, 20, 24, 48, 23, 25, 47]))
     if k == "varlen":
         lw, base = d[1], d[2]
         n = rng.choice([0, 1, 1, 2, 3, rng.randrange(0, 12)])
@@ -413,6 +414,15 @@ def render_list(descs, vals) -> str:
     return out
 
 
+def hand_written_unpack(cls) -> bool:
+    """the class defines its own from_unpack_list (old-style Payload), not the generated VariablePayload one"""
+    from ipv8.messaging.lazy_payload import VariablePayload
+    if issubclass(cls, VariablePayload):
+        return False
+    f = cls.__dict__.get("from_unpack_list")
+    return f is not None
+
+
 def check_records(ctx: Ctx, log, replay):
     """the property on the implementation: declared lengths hold, end positions inside the buffer"""
     from ipv8.messaging import serialization as S
@@ -491,6 +501,22 @@ def run_decode(ctx: Ctx, n_rounds: int, use_model: bool, full: bool):
                              f"{name}.{nme} is {ov!r:.80} but the decoded item is {rv!r:.80}", replay)
                         break
                 ctx.count("decode:value-checked-on-production-object")
+        if real[0] == "ok" and probe[0] == "ok" and off <= len(data) and hand_written_unpack(cls):
+            # hand-written from_unpack_list bodies re-parse blobs with their own record loops (no Packer involved): whatever
+            # they accept must account for every byte the decode consumed — the accepted value re-encodes to exactly as many
+            # bytes (content may be normalised: bit fields, modulo identifiers; the LENGTH may not shrink: a dropped
+            # partial record is a truncated message silently accepted)
+            try:
+                again = real_ser.pack_serializable(obj)
+            except Exception:
+                again = None
+                ctx.count("decode:re-encode:raised")
+            if again is not None:
+                ctx.count("decode:re-encode:" + ("same-length" if len(again) == real[1] - off else "DIFFERENT-LENGTH"))
+                if len(again) != real[1] - off:
+                    fail(ctx, f"{name}.from_unpack_list:bytes-unaccounted-for",
+                         f"{name} accepted {real[1] - off} bytes but the value it produced encodes to {len(again)} bytes: "
+                         f"part of the input was silently dropped (a cut-off record / field)", replay)
         if real[0] == "err" and probe[0] == "ok":
             # from_unpack_list of the real class rejected the values: still an error, fine
             ctx.count("decode:rejected-by-from_unpack_list")
@@ -1933,6 +1959,7 @@ recv:source-kind:UDPv6Address recv:source-kind:DomainAddress recv:gen:udp4 recv:
 recv:reentrant-op:rm recv:reentrant-op:add recv:reentrant-op:close recv:network-op:rmp recv:network-op:rma
 recv:network-op:seta decode:value-checked-on-production-object exit:outcome:tunneled exit:outcome:dropped
 recv:config:reverse_ip_cache_size:0 recv:config:reverse_ip_cache_size:1 recv:config:reverse_ip_cache_size:500
+decode:re-encode:same-length decode:rejected-by-from_unpack_list
 """.split()
 
 
